@@ -270,6 +270,7 @@ impl Prop for ChainProp {
             let mut w = world.borrow_mut();
             let rd = w.new_pipe();
             let wr = w.sink_pipe();
+            w.watch_class = "C11/changed-without-transport-read";
             // the server answers only after it has seen all calls of the chain
             let mut bytes = Vec::new();
             for o in sc.owed.iter().chain(sc.foreign.iter()) {
@@ -325,7 +326,8 @@ impl Prop for ChainProp {
                             }
                             let now = render_item(&h.item);
                             if now != h.rendered_at_yield {
-                                let class = if pipe.data_reads > h.data_reads_at_yield {
+                                let clobbered = w.watches.iter().any(|wt| wt.label == k && wt.clobbered);
+                                let class = if clobbered {
                                     "C11/overwritten-by-later-transport-read"
                                 } else {
                                     "C11/changed-without-transport-read"
@@ -364,6 +366,18 @@ impl Prop for ChainProp {
                                             if let Some(f) = check_held(&held, "after obtaining a further item") {
                                                 prog2.borrow_mut().fail = Some(f);
                                                 return;
+                                            }
+                                            {
+                                                let text: Option<&str> = match &it {
+                                                    Ok(Ok(rep)) => rep.parameters().map(|p| p.tag),
+                                                    Ok(Err(ErrIn::Bad { why, .. })) => Some(*why),
+                                                    _ => None,
+                                                };
+                                                if let Some(t) = text {
+                                                    if !t.is_empty() {
+                                                        world2.borrow_mut().watches.push(crate::world::Watch { pipe: rd, ptr: t.as_ptr() as usize, len: t.len(), expect: t.as_bytes().to_vec(), gen: e, clobbered: false, label: held.len() });
+                                                    }
+                                                }
                                             }
                                             held.push(Held { item: it, rendered_at_yield: r, gen_at_yield: e, data_reads_at_yield: d });
                                         }
@@ -437,6 +451,9 @@ impl Prop for ChainProp {
 
         // ---- oracle at quiescence
         let p = prog.borrow();
+        if let Some(f) = world.borrow_mut().fail.take() {
+            return Err(f);
+        }
         if let Some(f) = &p.fail {
             return Err(f.clone());
         }
